@@ -239,8 +239,8 @@ func c11Configs(tier string, race bool) []c11Cfg {
 			add(2, 2, 3, 0)
 			add(3, 1, 3, 0)
 			add(3, 2, 2, 1)
-			add(4, 1, 3, 1)
-			add(4, 2, 2, 1)
+			add(4, 1, 2, 1)
+			add(4, 2, 1, 1)
 		} else {
 			add(2, 1, 2, 0)
 			add(2, 2, 2, 0)
@@ -255,8 +255,9 @@ func c11Configs(tier string, race bool) []c11Cfg {
 	if tier == "thorough" {
 		add(3, 2, -1, 0)
 		add(4, 1, -1, 0)
-		add(4, 2, 3, 1)
-		add(5, 1, 3, 1)
+		add(4, 2, 2, 1)
+		add(5, 1, 2, 1)
+		add(6, 1, 1, 1)
 	} else {
 		add(3, 2, 2, 1)
 		add(4, 1, 2, 1)
